@@ -18,6 +18,44 @@ pub struct Case {
     pub vocab: VocabSpec,
     /// random probe strings: (seed, seed, mutation kind)
     pub probes: Vec<(u16, u16, u8)>,
+    /// build the engine with the default token slices (what `ParserFactory::new_simple` does)
+    #[serde(default)]
+    pub slices: bool,
+}
+
+/// "rest of the line" shapes: an optional literal, a long or unbounded run of a wide character class, an optional
+/// terminator.  These are the lexeme states that contain whole token slices.
+fn wide_rx() -> BoxedStrategy<Rx> {
+    let class = prop_oneof![
+        2 => Just(Rx::Dot),
+        1 => Just(Rx::DotAll),
+        2 => Just(Rx::Class { neg: true, items: vec![('\n', '\n')] }),
+        1 => Just(Rx::Class { neg: true, items: vec![('"', '"')] }),
+        1 => Just(Rx::Class { neg: true, items: vec![('-', '-'), ('a', 'a')] }),
+        1 => Just(Rx::Class { neg: true, items: vec![('\n', '\n'), ('\r', '\r')] }),
+    ];
+    let rep = prop_oneof![
+        3 => Just((0u32, None)),
+        1 => Just((1u32, None)),
+        2 => (0u32..3, 10u32..41).prop_map(|(a, b)| (a, Some(b))),
+    ];
+    let lit = prop_oneof![Just(""), Just("-"), Just("a "), Just("\n"), Just("c"), Just("\"")];
+    (lit.clone(), class, rep, lit).prop_map(|(pre, cl, (lo, hi), post)| {
+        let mut parts = vec![];
+        if !pre.is_empty() {
+            parts.push(Rx::Lit(pre.to_string()));
+        }
+        parts.push(match (lo, hi) {
+            (0, None) => Rx::Star(Box::new(cl)),
+            (1, None) => Rx::Plus(Box::new(cl)),
+            (lo, hi) => Rx::Rep(Box::new(cl), lo, hi),
+        });
+        if !post.is_empty() {
+            parts.push(Rx::Lit(post.to_string()));
+        }
+        if parts.len() == 1 { parts.pop().unwrap() } else { Rx::Cat(parts) }
+    })
+    .boxed()
 }
 
 pub struct C04;
@@ -110,13 +148,13 @@ impl Prop for C04 {
     }
     fn strategy(&self, tier: Tier) -> BoxedStrategy<Case> {
         let depth = tier.pick(4, 5);
-        (rx_strategy(RxOpts { depth, ..RxOpts::default() }), any::<u8>())
+        (prop_oneof![7 => rx_strategy(RxOpts { depth, ..RxOpts::default() }), 1 => wide_rx()], any::<u8>())
             .prop_flat_map(|(rx, sel)| {
                 let (_, g) = pick_render(&rx, sel);
                 let voc = prop_oneof![1 => Just(VocabSpec::byte()), 2 => syn_vocab_strategy(g, false)];
-                (Just(rx), Just(sel), voc, proptest::collection::vec(any::<(u16, u16, u8)>(), 12..40))
+                (Just(rx), Just(sel), voc, proptest::collection::vec(any::<(u16, u16, u8)>(), 12..40), proptest::bool::weighted(0.35))
             })
-            .prop_map(|(rx, render, vocab, probes)| Case { rx, render, vocab, probes })
+            .prop_map(|(rx, render, vocab, probes, slices)| Case { rx, render, vocab, probes, slices })
             .boxed()
     }
 
@@ -137,7 +175,15 @@ impl Prop for C04 {
             Ok(v) => v,
             Err(_) => return Ok(()),
         };
-        let f = factory(&vocab);
+        let f = if case.slices {
+            ctx.class("engine_with_default_slices");
+            match crate::engine::factory_ext(&vocab, &llguidance::earley::SlicedBiasComputer::general_slices(), llguidance::toktrie::InferenceCapabilities::default(), None) {
+                Ok(f) => f,
+                Err(_) => return Ok(()),
+            }
+        } else {
+            factory(&vocab)
+        };
         let m0 = matcher(&f, &g);
         if let Some(e) = m0.get_error() {
             ctx.class("compile_error");
